@@ -43,24 +43,26 @@ def run(ctx):
             ctx.check("socket-provisioning", "bound-to-configured-address", values.contains(addr, lambda s: is_call(s) and s[1].endswith("udp_socket_addr")),
                       "bound to config.udp_socket_addr()", "bound to %s" % fmt(addr), bs.loc(bb))
     ctx.floor("socket-provisioning", nb, 1, "bind calls in bind_socket")
-    spawns = [(bb, t) for bb, t in main.calls() if callee_name(t["fn"].get("path", "")) == "spawn" and "thread" in t["fn"].get("path", "")]
-    worker = [(bb, t) for bb, t in spawns if main.in_loop(bb)]
+    from lib import spawn_contexts
+    sctx = spawn_contexts(ctx, W)
+    spawns = [(d["main_bb"], d["term"]) for d in sctx if d["main_bb"] is not None]
+    worker = [d for d in sctx if d["looped"]]
     if len(worker) != 1:
         raise AnchorMissing("one worker spawn inside the spawn loop")
-    sb, st = worker[0]
-    lp = min(main.in_loop(sb), key=lambda l: len(l["body"]))
-    binds = [bb for bb, t in main.calls() if bb in lp["body"] and strip_generics(t["fn"].get("path", "")).endswith("bind_socket")]
-    ctx.check("socket-provisioning", "one-socket-per-worker", len(binds) == 1 and main.dominates(binds[0], sb), "each loop iteration binds a fresh socket for its worker",
-              "workers do not each get their own socket", main.loc(sb))
+    wd = worker[0]
+    wf, wev, sb, st = wd["fn"], wd["ev"], wd["bb"], wd["term"]
+    binds = [bb for bb, t in wf.calls() if bb in wd["body"] and strip_generics(t["fn"].get("path", "")).endswith("bind_socket")]
+    ctx.check("socket-provisioning", "one-socket-per-worker", len(binds) == 1 and wf.dominates(binds[0], sb), "each iteration binds a fresh socket for its worker",
+              "workers do not each get their own socket", wf.loc(sb))
     clos = [c for c in st.get("closures", []) if not c.startswith("fn:")]
     entry = P.fns.get(clos[0]) if clos else None
     if entry is None:
         raise AnchorMissing("worker entry closure")
     # the socket captured is this iteration's bind result
-    cterm = mev.call_args(sb)[1]
-    okcap = cterm[0] == "closure" and any(values.strip_payload(x) == mev.call_term(binds[0]) for x in cterm[2]) if binds else False
+    cterm = wev.call_args(sb)[1]
+    okcap = cterm[0] == "closure" and any(values.strip_payload(x) == wev.call_term(binds[0]) for x in cterm[2]) if binds else False
     ctx.check("socket-provisioning", "closure-captures-this-iterations-socket", okcap, "the worker closure captures the socket bound in the same iteration",
-              "the worker closure captures %s" % fmt(cterm), main.loc(sb))
+              "the worker closure captures %s" % fmt(cterm), wf.loc(sb))
 
     # every socket bound to the serving address is read by a worker: with SO_REUSEPORT the kernel spreads datagrams over ALL sockets of the
     # group, so a socket that is bound and kept alive without a thread reading it silently swallows its share of the requests
@@ -73,7 +75,7 @@ def run(ctx):
             if f.path in binders or not f.path.startswith("roughenough_server"):
                 continue
             r = W.ev(f.path).ret()
-            if values.contains(r, lambda x: is_call(x) and strip_generics(x[1]) in binders):
+            if "UdpSocket" in f.locals[0]["ty"] and values.contains(r, lambda x: is_call(x) and strip_generics(x[1]) in binders):
                 binders.add(f.path)
                 changed = True
     nserve = 0
